@@ -275,4 +275,4 @@ package txpool
 //@ func newSenderTxHeap
 //@   props C20
 //@   modifies nothing
-//@   ensures result != nil && fresh(result) && result.seq == seq && result.txs != nil && mapLen(result.txs) == 0
+//@   ensures result != nil && fresh(result) && result.seq == seq && result.txs != nil && mapLen(result.txs) == 0 && (forall q uint64 :: !inDom(result.txs, q))
